@@ -151,8 +151,31 @@ def fam_deadline(ctx: Ctx, fam: str) -> float:
     return float('inf')
 
 
+def to_ast(x):
+    if isinstance(x, (list, tuple)) and x and x[0] in ('e', 'a'):
+        return tuple(x)
+    return ('g', x[1], x[2], x[3], [to_ast(i) for i in x[4]])
+
+
+def corpus(ctx: Ctx) -> None:
+    """The witnesses of the Lean counter-example theorems, replayed on the real code: each must still
+    behave as the theorem says about the port (otherwise the finding changed — information, not alarm:
+    the general comparison below decides)."""
+    from harness.core import VERIF
+    for c in json.loads((VERIF / 'corpus/C01/counterexamples.json').read_text()):
+        ast = to_ast(c['ast'])
+        for v11 in (False, True):
+            schema = cm.build_schema([ast], v11)
+            xe = schema.elements['m0']
+            valid = xe.is_valid(cm.instance(0, list(c['word'])))
+            ctx.count('corpus:%s:%s' % (c['name'], 'reproduced' if valid == c['valid'] else 'no-longer-fails'))
+            if valid == c['valid'] and cm.ref_accepts(ast, list(c['word'])) == c['in_language']:
+                ctx.known_hit(KNOWN_ID)
+
+
 def run(ctx: Ctx, driver_ok: bool) -> None:
     drv = Driver('drv_c01') if driver_ok else None
+    corpus(ctx)
     for fam, v11, models, maxlen in families(ctx):
         for i in range(0, len(models), 40):
             if ctx.time_left() < 60:
